@@ -159,8 +159,19 @@ def gen_curved(rng):
     if kind == 'arc':
         n = rng.randint(4, 9)
         R = seg * n / rng.uniform(2.0, 4.0)
-        objs.append(dict(kind='arc', nseg=n, radius=R, a1=0.0, a2=rng.choice([120.0, 180.0, 270.0]), r=rad))
-        objs.append(dict(kind='wire', nseg=rng.randint(2, 4), p0=[R, 0.0, 0.0], p1=[R + seg * 3, 0.0, -seg], r=rad))
+        a2 = rng.choice([120.0, 180.0, 270.0])
+        objs.append(dict(kind='arc', nseg=n, radius=R, a1=0.0, a2=a2, r=rad))
+        # a straight wire attached to the first or to the last point of the arc, by its first or its second end
+        if rng.random() < 0.5:
+            e = [R, 0.0, 0.0]
+            o = [R + seg * 3, 0.0, -seg]
+        else:
+            e = [R * math.cos(math.radians(a2)), 0.0, R * math.sin(math.radians(a2))]
+            o = [e[0] * (1 + 3 * seg / R), seg, e[2] * (1 + 3 * seg / R)]
+        if rng.random() < 0.5:
+            objs.append(dict(kind='wire', nseg=rng.randint(2, 4), p0=e, p1=o, r=rad))
+        else:
+            objs.append(dict(kind='wire', nseg=rng.randint(2, 4), p0=o, p1=e, r=rad))
     elif kind == 'helix':
         n = rng.randint(8, 14)
         ln = seg * n / 4
@@ -170,8 +181,12 @@ def gen_curved(rng):
         objs.append(dict(kind='wire', nseg=n, p0=[0.0, 0.0, 0.0], p1=[0.0, seg * n * 1.5, seg * n], r=rad / 3, segtype=rng.choice([1, 2, 3])))
     else:
         n = rng.randint(4, 7)
-        objs.append(dict(kind='wire', nseg=n, p0=[0.0, 0.0, 0.0], p1=[0.0, 0.0, seg * n * 1.5], r=rad / 3, segtype=2))
-        objs.append(dict(kind='wire', nseg=rng.randint(3, 5), p0=[0.0, 0.0, seg * n * 1.5], p1=[seg * 4, seg, seg * n * 1.5], r=rad))
+        objs.append(dict(kind='wire', nseg=n, p0=[0.0, 0.0, 0.0], p1=[0.0, 0.0, seg * n * 1.5], r=rad / 3, segtype=rng.choice([1, 2, 3])))
+        top, far = [0.0, 0.0, seg * n * 1.5], [seg * 4, seg, seg * n * 1.5]
+        if rng.random() < 0.5:
+            objs.append(dict(kind='wire', nseg=rng.randint(3, 5), p0=top, p1=far, r=rad))
+        else:
+            objs.append(dict(kind='wire', nseg=rng.randint(3, 5), p0=far, p1=top, r=rad))
     return dict(f=f, ground=False, objs=objs, family=kind, lam=lam, seg=seg)
 
 
